@@ -176,7 +176,10 @@ class InputTypesGenerator:
                 target=generate_name(name),
                 annotation=annotation,
                 value=parse_input_field_default_value(
-                    node=field.ast_node, annotation=annotation, field_type=field_type
+                    node=field.ast_node,
+                    annotation=annotation,
+                    field_type=field_type,
+                    field=field,
                 ),
                 lineno=lineno,
             )
